@@ -125,7 +125,8 @@ _STR_METHODS = {
     "replace", "isdigit", "join", "title", "capitalize", "format", "splitlines", "find", "rfind", "zfill", "isalpha", "isupper",
 }
 _CONTAINER_METHODS = {"get", "items", "keys", "values", "count", "index", "copy", "append", "extend", "add", "update",
-                      "setdefault", "pop"}  # mutation of containers *local to the lifted fragment*
+                      "setdefault", "pop", "clear", "remove", "discard", "insert", "sort", "reverse", "popitem", "union",
+                      "intersection", "difference", "issubset", "issuperset", "most_common", "elements"}  # mutation of containers *local to the lifted fragment*
 _BUILTIN_EXC = {"ValueError": ValueError, "TypeError": TypeError, "KeyError": KeyError,
                 "IndexError": IndexError, "ZeroDivisionError": ZeroDivisionError,
                 "AttributeError": AttributeError, "Exception": Exception}
@@ -419,7 +420,10 @@ class Evaluator:
         if any(k.arg is None for k in n.keywords):
             raise Unfoldable("**kwargs call")
         if key in self.funcs:
-            return self.funcs[key](*args, **kwargs)
+            try:
+                return self.funcs[key](*args, **kwargs)
+            except (TypeError, ValueError, KeyError, IndexError, AttributeError, ZeroDivisionError) as e:
+                raise Raised(type(e).__name__)  # the fragment misuses a supplied pure function: the program would raise too
         if key in _STD_CONTAINERS:
             return self._builtin(_STD_CONTAINERS[key], args, kwargs)
         if isinstance(n.func, ast.Name):
